@@ -4,6 +4,7 @@ import (
 	"encoding/json"
 	"fmt"
 	"os"
+	"path/filepath"
 	"sort"
 	"strings"
 	"sync"
@@ -27,6 +28,7 @@ type BFS struct {
 	Timeout         time.Duration
 	MaxReport       int
 	Quiet           bool
+	EvidenceName    string // file name stem under evidence/ (default: Property); parts of a composite check use <id>-<part>.part
 	// ConfCfg, when set, is a second configuration (the same search over the bound implementation instead of the model
 	// stand-in): the shortest path to every distinct state of depth <= ConfMaxDepth is replayed with it after the search
 	// and must give the same Conf observations; its oracle violations are reported like any other.
@@ -356,7 +358,16 @@ func (b *BFS) Finish(res *BFSResult, rule string, assumptions []string, extra ma
 	}
 	ev := &Evidence{PropertyID: b.Property, Tier: Tier(), Seed: Seed(), Level: "model_checking", Coverage: cov,
 		Assumptions: assumptions, WallS: res.Wall.Seconds(), Violations: len(res.Violations)}
-	if err := WriteEvidence(ev); err != nil {
+	if b.EvidenceName != "" {
+		ev.PropertyID = b.EvidenceName
+	}
+	err := WriteEvidence(ev)
+	ev.PropertyID = b.Property
+	if b.EvidenceName != "" {
+		// the file is named after the part, its content names the property
+		fixEvidenceID(b.EvidenceName, b.Property)
+	}
+	if err != nil {
 		fmt.Fprintf(os.Stderr, "evidence: %v\n", err)
 		return 2
 	}
@@ -368,4 +379,19 @@ func (b *BFS) Finish(res *BFSResult, rule string, assumptions []string, extra ma
 		return 1
 	}
 	return 0
+}
+
+func fixEvidenceID(name, prop string) {
+	p := filepath.Join(OutDir(), "evidence", name+".json")
+	raw, err := os.ReadFile(p)
+	if err != nil {
+		return
+	}
+	var m map[string]interface{}
+	if json.Unmarshal(raw, &m) != nil {
+		return
+	}
+	m["property_id"] = prop
+	out, _ := json.MarshalIndent(m, "", " ")
+	os.WriteFile(p, append(out, '\n'), 0644)
 }
